@@ -5,12 +5,14 @@
    floor(f x balance), once; entries of other validators, in other buckets, or matured, are
    unchanged, and the per-validator index is untouched.  It rests on the invariant
    (Proofs/IndexSync.v, all histories) that every pending entry has its index key.
-   The fee-collector amount and the redelegation half are not theorems (partial): check_C07
-   evaluates them on implementation traces. *)
+   Forwarding: when the slash of pending unbondings returns, the fee collector has received, per
+   denom, exactly what the pending entries lost (C07_slashed_unbondings_go_to_the_fee_collector:
+   fee balance + pending balances is conserved; all reachable states).
+   The redelegation half is not a theorem (partial): check_C07 evaluates it on implementation traces. *)
 From Coq Require Import ZArith List Bool Lia.
 From Alliance Require Import Num KMap Types Monad Model Step Spec Hoare WitnessLib.
 From Alliance.Witness Require Import F_C07_bucket.
-From Alliance.Proofs Require Import IndexSync SlashQueue.
+From Alliance.Proofs Require Import IndexSync SlashQueue FeeFlow.
 Import ListNotations.
 Open Scope Z_scope.
 
@@ -32,6 +34,15 @@ Proof. exact slash_callback_exact_on_unbondings. Qed.
 Print Assumptions C07_unbondings_slashed_exactly_once.
 
 (* every pending entry sits in the bucket of its own delegator and has its per-validator index key *)
+(* forwarding: what the entries lose arrives, coin for coin, at the fee collector *)
+Theorem C07_slashed_unbondings_go_to_the_fee_collector : forall h v f d, let s := run init_state h in
+  match slash_undelegations v f s with
+  | Ok _ s' => bal s' ACC_FEE d - bal s ACC_FEE d = unbonding_sum s d - unbonding_sum s' d
+  | _ => True
+  end.
+Proof. exact slashed_unbondings_go_to_the_fee_collector. Qed.
+Print Assumptions C07_slashed_unbondings_go_to_the_fee_collector.
+
 Theorem C07_every_pending_entry_is_indexed : forall h ct dl l u,
   kget (undelq (run init_state h)) [ct; dl] = Some l -> In u l ->
   u_del u = dl /\ kget (undelidx (run init_state h)) [u_val u; ct; u_denom u; dl] = Some tt.
